@@ -13,3 +13,36 @@ contract("C13.get_schema_namespace",
                              " and all(result[j] != ':' and result[j] != '/' for j in range(len(result) - 1)))",
          },
          bounded={"org_tag": "str:a:/:6:8"})
+
+from pyvc.contract import class_model
+class_model("HedSchemaNS", {"_namespace": "Str", "filename": "Opaque"})
+class_model("HedSchemaGroup", {"_schemas": "Map[Str,HedSchema]", "valid_prefixes": "Opaque"})
+
+# C13: a prefix must be alphabetic; ':' is appended when missing
+contract("C13.set_schema_prefix", file="hed/schema/hed_schema.py", func="HedSchema.set_schema_prefix",
+         params={"self": "HedSchemaNS", "schema_namespace": "Str"}, returns=None, enc="array", self_class="HedSchemaNS",
+         modifies=["self._namespace"],
+         lets={"body": "schema_namespace[:-1] if (len(schema_namespace) > 0 and schema_namespace[len(schema_namespace) - 1] == ':') else schema_namespace"},
+         raises={"HedFileError": "len(schema_namespace) > 0 and not (len(body) > 0 and all(body[k].isalpha() for k in range(len(body))))"},
+         ensures={
+             "C13.prefix.stored_with_colon": "implies(len(schema_namespace) > 0, len(self._namespace) == len(body) + 1"
+                                             " and self._namespace[len(body)] == ':' and all(self._namespace[k] == body[k] for k in range(len(body))))",
+             "C13.prefix.empty_stays_empty": "implies(len(schema_namespace) == 0, len(self._namespace) == 0)",
+         })
+
+# C13 dispatch: a tag is resolved by the schema owning its prefix and by no other; an unloaded prefix is an error
+contract("C13.schema_for_namespace", file="hed/schema/hed_schema_group.py", func="HedSchemaGroup.schema_for_namespace",
+         params={"self": "HedSchemaGroup", "namespace": "Str"}, returns="Opt[HedSchema]", enc="native",
+         ensures={"C13.dispatch.owner": "result == (self._schemas[namespace] if namespace in self._schemas else None)"})
+
+contract("C13.group_find_tag_entry", file="hed/schema/hed_schema_group.py", func="HedSchemaGroup.find_tag_entry",
+         params={"self": "HedSchemaGroup", "tag": "HedTag", "schema_namespace": "Str"},
+         returns="Tuple[Opt[TagEntry],Opt[Str],Opaque]", enc="native",
+         requires=["tag.__str__ == tag.tag", "len(schema_namespace) <= len(tag.tag)",
+                   "len(tag.tag[len(schema_namespace):].casefold()) == len(tag.tag[len(schema_namespace):])"],
+         lets={"w": "tag.tag[len(schema_namespace):].casefold()"},
+         ensures={
+             "C13.dispatch.unloaded_prefix_is_error": "implies(schema_namespace not in self._schemas, result[0] is None and result[1] is None)",
+             "C13.dispatch.resolved_by_owner_only": "implies(schema_namespace in self._schemas and tag_view(self._schemas[schema_namespace], w) is not None,"
+                                                    " result[0] == tag_view(self._schemas[schema_namespace], w))",
+         })
